@@ -329,3 +329,28 @@ Proof.
   - repeat constructor; unfold in_era, time_sec, ntp_epoch, nanos_per_sec; cbn; lia.
   - eexists. eexists. split; [vm_compute; reflexivity|]. vm_compute. split; reflexivity.
 Qed.
+
+(* an exchange for which NO reply goes out is not on record.  The listeners enter a request into
+   the store (handleRequest) before the reply is built and sent; when no reply can be sent (SCION
+   path that cannot be reversed, no cookie, failed write) they report the transmit time
+   handleRequest set, unchanged (updateTXTimestamp): afterwards the store satisfies the invariant
+   and holds no exchange of this client with the receive stamp of the unanswered request - so no
+   later request can be served in interleaved mode from it ("an interleaved reply is given only
+   when such an earlier reply to the same client is on record"). *)
+Theorem C06_no_reply_not_on_record : forall k c s cid q rxt now victim out,
+  0 < icap c -> Inv c s -> in_era k rxt -> in_era k (rxt + icap c + 1) -> in_era k now ->
+  handle c s cid q rxt now victim = Some out ->
+  Inv c (t_state (update_tx (o_state out) cid (o_rxt out) (o_txt out))) /\
+  forall it, find_item cid (items (t_state (update_tx (o_state out) cid (o_rxt out) (o_txt out)))) = Some it ->
+    forall e, In e (it_ents it) -> e_rx e <> to64 (o_rxt out).
+Proof. exact noreply_not_on_record. Qed.
+Print Assumptions C06_no_reply_not_on_record.
+
+(* the listener-level oracle for such an exchange (kind lsn.noreply) is not trivially true: it
+   rejects what the listeners did before the repair (the unanswered request kept on record and the
+   next request of the client served from it) and accepts a basic reply from an empty record *)
+Example C06_noreply_oracle_rejects_kept_record :
+  let q := {| q_org := 100; q_rx := 7; q_tx := 9 |} in
+  C06_noreply_ok false [(100, 105)] q true 7 200 105 [(200, 210)] = false /\
+  C06_noreply_ok false [] q true 9 200 205 [(200, 210)] = true.
+Proof. split; reflexivity. Qed.
